@@ -20,3 +20,22 @@ def ccc(cp):
     if unicodedata.category(ch) in ('Cn','Cs'): return 0
     return unicodedata.combining(ch)
 json.dump({"unidata":unicodedata.unidata_version,"dec":build(dec,[]),"ccc":build(ccc,0)}, open(sys.argv[1],"w"), separators=(',',':'))
+
+# pools of code points assigned in this Unicode version, used by the harness to build inputs
+def pools():
+    dec, marks, letters = [], [], []
+    for cp in range(0x110000):
+        ch = chr(cp)
+        cat = unicodedata.category(ch)
+        if cat in ('Cn', 'Cs', 'Co'):
+            continue
+        if unicodedata.normalize('NFKD', ch) != ch:
+            dec.append(cp)
+        c = unicodedata.combining(ch)
+        if c:
+            marks.append([cp, c])
+        elif cat[0] == 'L' and unicodedata.normalize('NFKD', ch) == ch and cp > 127 and (cp % 7 == 0):
+            letters.append(cp)
+    return {"unidata": unicodedata.unidata_version, "decomposable": dec, "marks": marks, "letters": letters}
+if len(sys.argv) > 2:
+    json.dump(pools(), open(sys.argv[2], "w"), separators=(',', ':'))
